@@ -71,6 +71,93 @@ func ruleTreeAccounting(c *Ctx) {
 	}
 }
 
+// ruleRoleIndexTable: which peers feed which per-store index. In SetRegion and
+// updateSubTreeStat every access of leaders/followers is keyed by a peer taken
+// from the voters (leaders on the `peer is the leader` edge, followers on the
+// other one), of learners by a learner, of pendingPeers by a pending peer — a
+// learner run through the follower branch makes the follower sizes drift.
+// (removeRegionFromSubTree removes from every index for every peer: exempt.)
+func ruleRoleIndexTable(c *Ctx) {
+	P := c.P
+	rule := c.Prop + "/role-index-table"
+	ri := func(m string) Callee { return F(P.Method("server/core", "RegionInfo", m)) }
+	allowed := map[string][]Callee{
+		"leaders":      {ri("GetVoters")},
+		"followers":    {ri("GetVoters"), ri("GetFollowers")},
+		"learners":     {ri("GetLearners")},
+		"pendingPeers": {ri("GetPendingPeers")},
+	}
+	getPeerID := F(P.Method("github.com/pingcap/kvproto/pkg/metapb", "Peer", "GetId"))
+	isLeaderEq := func(pos bool) *guardEv {
+		op := "=="
+		if !pos {
+			op = "!="
+		}
+		return guardRel("peer id "+op+" leader id", op, resultOfCall(getPeerID), resultOfCall(getPeerID))
+	}
+	// the slice a key's peer was taken from: key <- GetStoreId(peer), peer <- *IndexAddr(slice, i)
+	sourceOf := func(key ssa.Value) ssa.Value {
+		var src ssa.Value
+		derivesFrom(key, func(v ssa.Value) bool {
+			u, ok := v.(*ssa.UnOp)
+			if !ok || u.Op != token.MUL {
+				return false
+			}
+			ia, ok := u.X.(*ssa.IndexAddr)
+			if !ok {
+				return false
+			}
+			src = ia.X
+			return true
+		}, 5)
+		return src
+	}
+	n := 0
+	for _, fn := range []*ssa.Function{P.Method("server/core", "RegionsInfo", "SetRegion"), P.Method("server/core", "RegionsInfo", "updateSubTreeStat")} {
+		c.saw(fnName(fn))
+		for _, name := range []string{"leaders", "followers", "learners", "pendingPeers"} {
+			getters := allowed[name]
+			k := 0
+			f := P.Field("server/core", "RegionsInfo", name)
+			for _, b := range fn.Blocks {
+				for _, ins := range b.Instrs {
+					var m, key ssa.Value
+					switch x := ins.(type) {
+					case *ssa.Lookup:
+						m, key = x.X, x.Index
+					case *ssa.MapUpdate:
+						m, key = x.Map, x.Key
+					default:
+						continue
+					}
+					if !isLoadOf(m, f) {
+						continue
+					}
+					n++
+					k++
+					src := sourceOf(key)
+					ok := false
+					for _, g := range getters {
+						if src != nil && valueIsCallTo(src, g) {
+							ok = true
+						}
+					}
+					construct := fmt.Sprintf("access #%d of %s in %s", k, name, fnName(fn))
+					c.Check(ok, rule, construct, "keyed by a peer of the role this index is for", P.instrPos(ins), "the peer does not come from the role's own peer list")
+					if name == "leaders" || name == "followers" {
+						target := ins
+						c.need(rule, fn, construct+" (leader test)", func(x ssa.Instruction) bool { return x == target },
+							[]Ev{isLeaderEq(name == "leaders")}, all, "leaders on the edge where the peer is the region's leader, followers on the other edge")
+					}
+				}
+			}
+		}
+	}
+	if n < 10 {
+		c.Undec(rule, "index accesses", "at least 10 keyed accesses of the four per-store indexes in SetRegion and updateSubTreeStat", "", fmt.Sprintf("found %d", n))
+	}
+}
+
 func ruleRegionsInfoDiscipline(c *Ctx) {
 	P := c.P
 	rule := c.Prop + "/index-discipline"
@@ -226,6 +313,7 @@ func ruleBTreeRecycling(c *Ctx) {
 func init() {
 	register("C07", "Region lookups and per-store statistics match the cached region set", func(c *Ctx) {
 		c.Group("C07/size-accounting", "every tree insertion/deletion/in-place replacement moves totalSize by the region's size; tree and size are written only by the tree's own methods", func() { ruleTreeAccounting(c) })
+		c.Group("C07/role-index-table", "leaders/followers are fed from the voters (split on the leader test), learners from the learners, pending peers from the pending peers, both when inserting and when updating sizes", func() { ruleRoleIndexTable(c) })
 		c.Group("C07/index-discipline", "the shared item is re-pointed only after the old tree/sub-tree entries were removed; sub-tree rebuild is decided on leader, voters, learners and pending peers; range change on both keys; removals hit every index; mutators run under the BasicCluster write lock", func() { ruleRegionsInfoDiscipline(c) })
 		c.Group("C07/btree-recycling", "recycled btree nodes are cleared in every slice (items, children, rank indices); rank indices are maintained by the structural operations", func() { ruleBTreeRecycling(c) })
 	})
